@@ -94,6 +94,9 @@ def run(model: Model, rep: Report, tier: str) -> None:
     rep.trusted_base = ["Shpitser & Pearl 2006, Theorem 5 (soundness of ID)", "C14 (graph primitives)", "C13 (Sum.safe / Product.safe / P)", "districts of G[V∖X] refine districts of G"]
     rep.floors = {"R1.0": 2, "R1.1": 7, "R1.2": 6}
     r1_0(model, rep)
+    # the public wrapper hands ID the caller's own graph and query (a pre-pruned graph changes which nodes line 3 can turn into treatments)
+    from . import c02
+    c02.r2_2(model, rep)
     f, ev, ident, paths, impl, results, sa, ref = match_lines(model, rep)
     words = {
         "line1": "X = ∅  →  Σ_{V∖Y} P",
